@@ -149,7 +149,7 @@ func c01Case(c *Ctx) *Result {
 	res := &Result{Params: params}
 
 	env, err := NewEnv(EnvCfg{PatC: patC, PatS: patS, Multiplex: mult,
-		Users: []UserSpec{{"alice", "alice-secret"}, {"bob", "bob-secret"}}})
+		Users: usersABL})
 	if err != nil {
 		res.Verdict, res.Detail = Inconclusive, "env: "+err.Error()
 		return res
@@ -159,7 +159,7 @@ func c01Case(c *Ctx) *Result {
 		p.SetChunker(simnet.C2S, chunkerFor(chunkC2S, c.Seed*7+int64(c.Idx)*3+int64(p.ID)))
 		p.SetChunker(simnet.S2C, chunkerFor(chunkS2C, c.Seed*11+int64(c.Idx)*5+int64(p.ID)))
 	}
-	ui := r.Intn(2)
+	ui := r.Intn(len(env.Cfg.Users))
 	cm, err := env.NewClient(ui, "")
 	if err != nil {
 		res.Verdict, res.Detail = Inconclusive, "client: "+err.Error()
